@@ -5,7 +5,10 @@ RFC 3986 appendix-B reference splitter and the laws stated in the property.
 """
 from __future__ import annotations
 
+import collections
+import collections.abc
 import itertools
+import types
 import re
 
 import httpcore
@@ -237,6 +240,7 @@ def wire_host(out):
             continue
         n += 1
         ct = {("http", "h1"): "h11", ("http", "h2"): "h2pk", ("https", "h1"): "h11tls", ("https", "h2"): "h2alpn", ("http", "h1-fwd"): "fwd"}[(sch, proto)]
+        fwd = proto == "h1-fwd"
         if proto == "h1-fwd":
             proto = "h1"            # through a forwarding proxy: the header list still arrives whole
         u = f"{sch}://{host}" + (f":{port}" if port is not None else "") + "/t/tok"
@@ -275,6 +279,19 @@ def wire_host(out):
         else:
             wire_hdrs = [(k, v) for c in topo.all_h2_conns() for sid in c.order for k, v in c.streams[sid].headers if not k.startswith(b":")]
             want_hdrs = [(k.lower().encode(), v.encode()) for k, v in WIRE_HEADERS]
+        if fwd:
+            # the absolute-form request target is the URL serialised: it must parse back to the URL that was asked for
+            tg = [r.target for c in topo.all_h1_conns() for r in c.parser.requests]
+            ok_t = len(tg) == 1
+            if ok_t:
+                try:
+                    back = httpcore.URL(tg[0])
+                    ok_t = back == httpcore.URL(u) and reference(tg[0])["host"] == ref["host"]
+                except Exception:
+                    ok_t = False
+            if not ok_t:
+                out.append({"oracle": "C19.forward-target", "message": f"{u} through a forwarding proxy ({variant}): request target on the wire {tg} does not parse back to the requested URL",
+                            "signature": {"harness": "wire-host", "kind": "forward-target", "ipv6": host.startswith("[")}, "case": {"wire": True}})
         if wire_hdrs != want_hdrs:
             out.append({"oracle": "C19.wire-headers", "message": f"{u} over {ct} ({variant}): header list on the wire {wire_hdrs}, the caller gave {WIRE_HEADERS} (order and duplicates must be kept)",
                         "signature": {"harness": "wire-host", "kind": "wire-headers", "proto": proto}, "case": {"wire": True}})
@@ -283,6 +300,20 @@ def wire_host(out):
                         "signature": {"harness": "wire-host", "kind": "wire-host", "proto": proto, "ipv6": host.startswith("[")},
                         "case": {"wire": True}})
     return n
+
+
+class _Seq(collections.abc.Sequence):
+    def __init__(self, items):
+        self._items = list(items)
+
+    def __getitem__(self, i):
+        return self._items[i]
+
+    def __len__(self):
+        return len(self._items)
+
+    def __eq__(self, other):
+        return isinstance(other, _Seq) and other._items == self._items
 
 
 def header_reuse(out):
@@ -299,6 +330,13 @@ def header_reuse(out):
         "str-pairs-host": lambda: [("Host", "a.example"), ("X-K", "v")],
         "mapping": lambda: {"Host": "a.example", "X-K": "v"},
         "empty-list": lambda: [],
+        # any Mapping / Sequence is a header container, not only dict and list
+        "tuple-of-pairs": lambda: (("Host", "a.example"), ("X-K", "v")),
+        "mappingproxy": lambda: types.MappingProxyType({"Host": "a.example", "X-K": "v"}),
+        "userdict": lambda: collections.UserDict({"Host": "a.example", "X-K": "v"}),
+        "chainmap": lambda: collections.ChainMap({"Host": "a.example"}, {"X-K": "v"}),
+        "userlist": lambda: collections.UserList([("Host", "a.example"), ("X-K", "v")]),
+        "abc-sequence": lambda: _Seq([(b"Host", b"a.example"), (b"X-K", b"v")]),
     }
     bodies = [b"12345", b"1234567890abc", b""]
     n = 0
@@ -309,7 +347,7 @@ def header_reuse(out):
         w.env.fp = None
         pool = scen.make_pool(ct, w.backend, variant)
         hdrs = mk()
-        before = copy.deepcopy(hdrs)
+        before = mk() if isinstance(hdrs, (types.MappingProxyType, collections.ChainMap)) else copy.deepcopy(hdrs)
         res = []
         url = "http://a.example/t/tok"
         if variant == "sync":
